@@ -517,5 +517,17 @@ package document
 //@ ensures old(cellParasOwn(t)) ==> cellParasOwn(t)
 //@ ensures old(paraRunsOwn(t)) ==> paraRunsOwn(t)
 
-// toRomanUpper / toRomanLower (helpers of AddCellList) are not under contract: at AddCellList's call sites they are
-// abstracted by their inferred footprint (they write no heap); their own index safety is not proved here.
+// Roman numerals of AddCellList: pure, and the 13-entry symbol table is indexed within bounds (the slice literals are
+// SSA values, their lengths need no invariant). Termination of the inner subtraction loop is not claimed.
+//@ func toRomanUpper
+//@ props C09
+//@ modifies nothing
+//@ loop 1
+//@   invariant 0 <= #i && #i <= len(values) && unchangedHeap()
+//@   decreases len(values) - #i
+//@ loop 2
+//@   invariant 0 <= i && i < len(values) && unchangedHeap()
+
+//@ func toRomanLower
+//@ props C09
+//@ modifies nothing
